@@ -29,16 +29,24 @@ type slotInvariant struct {
 	key   string                 // fieldName form: <struct type>.<field>
 	min   int64                  //
 	scope map[*ssa.Function]bool // nil: every function of the module
+	// extra: length atoms of values that are the slot itself, read through its address at the entry
+	// of the function holding the deferred pop
+	extra map[string]bool
 }
 
 var slotInvariants []*slotInvariant
 
 // slotFact returns the facts the established invariants give for a length atom of the fact engine.
 func slotFacts(a string) []Lin {
-	if !strings.HasSuffix(a, "@entry)") || !strings.HasPrefix(a, "len(") {
-		return nil
-	}
 	var out []Lin
+	for _, inv := range slotInvariants {
+		if inv.extra[a] {
+			out = append(out, atom(a).addK(-inv.min))
+		}
+	}
+	if !strings.HasSuffix(a, "@entry)") || !strings.HasPrefix(a, "len(") {
+		return out
+	}
 	for _, inv := range slotInvariants {
 		suffix := "." + inv.key + "@entry)"
 		if !strings.HasSuffix(a, suffix) {
@@ -70,6 +78,10 @@ type slotWriter struct {
 	fn  *ssa.Function
 	st  *ssa.Store
 	key string
+	// via: the store is made through the address of the field, handed to fn (parameter number
+	// viaParam) by this call instruction
+	via      ssa.CallInstruction
+	viaParam int
 }
 
 func isFieldOf(fa *ssa.FieldAddr, key string) bool { return fieldName(fa) == key }
@@ -87,7 +99,7 @@ func (c *Ctx) slotWriters(key string) (writers []slotWriter, escapes []ssa.Instr
 					switch u := u.(type) {
 					case *ssa.Store:
 						if u.Addr == ssa.Value(fa) {
-							writers = append(writers, slotWriter{fn, u, key})
+							writers = append(writers, slotWriter{fn: fn, st: u, key: key})
 						} else {
 							escapes = append(escapes, u)
 						}
@@ -96,6 +108,14 @@ func (c *Ctx) slotWriters(key string) (writers []slotWriter, escapes []ssa.Instr
 							escapes = append(escapes, u)
 						}
 					case *ssa.DebugRef:
+					case ssa.CallInstruction:
+						// the address is an argument of a static call: a function that only reads through it
+						// is a load; one that appends to / re-slices what it points to holds writers (ext_y1.go)
+						ws, ok := accessorWriters(u, fa, key)
+						if !ok {
+							escapes = append(escapes, u)
+						}
+						writers = append(writers, ws...)
 					default:
 						escapes = append(escapes, u)
 					}
@@ -134,6 +154,7 @@ func (c *Ctx) slotAlways(T *types.Named, key string, min int64) {
 	}
 	good := true
 	writers, escapes := c.slotWriters(key)
+	writers, escapes = accessorWritersAsEscapes(writers, escapes)
 	for _, e := range escapes {
 		good = false
 		c.sfail(rule, e.Parent().String(), what+": address use "+c.valShapeIns(e), e.Pos(),
@@ -269,13 +290,17 @@ func (c *Ctx) slotExtent(T *types.Named, key string) {
 		v := origin(w.st.Val)
 		if call, ok := v.(*ssa.Call); ok {
 			if bi, ok := call.Call.Value.(*ssa.Builtin); ok && bi.Name() == "append" && len(call.Call.Args) == 2 {
-				if _, _, ok := sameSlotLoad(call.Call.Args[0], key); ok && w.fn.Parent() == nil && push == nil {
+				if _, _, ok := sameSlotLoad(call.Call.Args[0], key); ok && w.fn.Parent() == nil && push == nil && w.via == nil {
 					push = w
 					continue
 				}
 			}
 		}
-		if sl, ok := v.(*ssa.Slice); ok && sl.Low == nil && sl.High != nil && pop == nil {
+		if w.via != nil && pop == nil && popThroughParam(w) {
+			pop = w
+			continue
+		}
+		if sl, ok := v.(*ssa.Slice); ok && sl.Low == nil && sl.High != nil && pop == nil && w.via == nil {
 			if ld, _, ok := sameSlotLoad(sl.X, key); ok {
 				fi := newFuncInfo(w.fn)
 				// the new length is at least the old one minus one
@@ -424,7 +449,7 @@ func (c *Ctx) slotExtent(T *types.Named, key string) {
 	}
 	c.sok(rule, P.String(), what+": protected functions", P.Pos(),
 		fmt.Sprintf("%d module functions are reachable from the entry points only through calls made by %s after its push", len(scope), P.Name()), "")
-	slotInvariants = append(slotInvariants, &slotInvariant{key: key, min: 1, scope: scope})
+	slotInvariants = append(slotInvariants, &slotInvariant{key: key, min: 1, scope: scope, extra: popParamAtoms(pop)})
 }
 
 // insBefore: a is executed before b on every path to b (same function).
